@@ -33,6 +33,7 @@ PURE_CALLS = {'len', 'min', 'max', 'abs', 'int', 'float', 'bool', 'tuple', 'divm
               'int_to_bytes', 'signed_int_to_bytes', 'double_to_bytes', 'np_float_to_bytes', 'np_float_to_bytes_signed',
               'bytes_to_int', 'bytes_to_signed_int', 'bytes_to_double'}     # utils struct codecs (pure)
 MAX_HELPER_STMTS = 30
+THREE_TUPLES = ('blockshape', 'shape_pad', 'block_dims')
 PUBLIC_HELPERS = False    # also dissolve small public helpers that no rule names
 
 
@@ -175,6 +176,9 @@ def _lit_elems(e, lookup, depth=0):
             return [ast.copy_location(ast.Subscript(value=ast.Name(id=e.id, ctx=ast.Load()), slice=ast.Constant(value=i), ctx=ast.Load()), e)
                     for i in range(len(d.elts))]
         return None
+    if isinstance(e, ast.Attribute) and e.attr in THREE_TUPLES and isinstance(e.value, (ast.Name, ast.Attribute)):
+        # blockshape / shape_pad are triples (IL, XL, Z) by the file format
+        return [ast.copy_location(ast.Subscript(value=copy.deepcopy(e), slice=ast.Constant(value=i), ctx=ast.Load()), e) for i in range(3)]
     if isinstance(e, ast.Call) and isinstance(e.func, ast.Name) and not e.keywords:
         if e.func.id == 'zip' and e.args:
             cols = [_lit_elems(a, lookup, depth + 1) for a in e.args]
@@ -186,9 +190,14 @@ def _lit_elems(e, lookup, depth=0):
             if c is None:
                 return None
             return [ast.copy_location(ast.Tuple(elts=[ast.Constant(value=i), x], ctx=ast.Load()), e) for i, x in enumerate(c)]
-        if e.func.id == 'range' and len(e.args) == 1 and isinstance(e.args[0], ast.Constant) and \
-                isinstance(e.args[0].value, int) and 0 <= e.args[0].value <= 8:
-            return [ast.copy_location(ast.Constant(value=i), e) for i in range(e.args[0].value)]
+        if e.func.id == 'range' and 1 <= len(e.args) <= 3 and all(
+                isinstance(a, ast.Constant) and type(a.value) is int for a in e.args):
+            vals = list(range(*[a.value for a in e.args]))
+            if len(vals) <= 8:
+                return [ast.copy_location(ast.Constant(value=i), e) for i in vals]
+        if e.func.id == 'reversed' and len(e.args) == 1:
+            c = _lit_elems(e.args[0], lookup, depth + 1)
+            return list(reversed(c)) if c is not None else None
     return None
 
 
@@ -384,6 +393,21 @@ def _assigned_names(fn):
     return out
 
 
+def _match_target(tgt, el):
+    """{name: expression} binding an assignment target (names, nested tuples) to an element expression of the same shape"""
+    if isinstance(tgt, ast.Name):
+        return {tgt.id: el}
+    if isinstance(tgt, (ast.Tuple, ast.List)) and isinstance(el, (ast.Tuple, ast.List)) and len(tgt.elts) == len(el.elts):
+        out = {}
+        for t, e in zip(tgt.elts, el.elts):
+            m = _match_target(t, e)
+            if m is None:
+                return None
+            out.update(m)
+        return out
+    return None
+
+
 def _comprehension_locals(fn):
     """ids of Name nodes that refer to a variable bound by an enclosing comprehension (its own scope)."""
     out = set()
@@ -484,6 +508,8 @@ class ModuleNormaliser:
                 if self.consts:
                     self.fold_consts(fn)
                 fn.body = self.struct_block(fn.body, fn)
+                self.merge_aug(fn)
+                self.ssa_rename(fn)
                 if not skip('inline'):
                     self.inline_calls(fn, cls)
                 if not skip('copyprop'):
@@ -630,11 +656,9 @@ class ModuleNormaliser:
 
     def unroll(self, s, fn):
         tgt = s.target
-        if isinstance(tgt, ast.Name):
-            names = [tgt.id]
-        elif isinstance(tgt, ast.Tuple) and all(isinstance(e, ast.Name) for e in tgt.elts):
-            names = [e.id for e in tgt.elts]
-        else:
+        names = [x.id for x in ast.walk(tgt) if isinstance(x, ast.Name)]
+        if not names or len(set(names)) != len(names) or not all(
+                isinstance(x, (ast.Name, ast.Tuple, ast.List, ast.expr_context)) for x in ast.walk(tgt)):
             return None
         # loop variables must not be assigned in the body or used after the loop (they are, at most, read in the body)
         sites = _assigned_names(fn)
@@ -653,22 +677,95 @@ class ModuleNormaliser:
                     return None          # the only binding is this loop: the load reads its last value
                 st = index.stmt_of(x)
                 # a load that can run after this loop (later statement, or anywhere in a loop around both) may read it
-                if st is None or not (index.precedes(st, s) or index.exclusive(st, s)) or index.common_loop(st, s):
+                if st is None or index.common_loop(st, s):
+                    return None
+                if index.precedes(st, s) or index.exclusive(st, s):
+                    continue
+                # a later load is fine when the name is re-bound after this loop and before (or around) the load
+                rebound = False
+                for b in sites.get(x.id, []):
+                    if b is s or id(b) not in index.pos:
+                        continue
+                    if index.precedes(s, b) and (index.precedes(b, st) or index.encloses(b, st) or b is st):
+                        rebound = True
+                if not rebound:
                     return None
         out = []
         for el in _lit_elems(s.iter, self.single_def_lookup(fn)):
-            if isinstance(tgt, ast.Name):
-                vals = [el]
-            else:
-                if not (isinstance(el, (ast.Tuple, ast.List)) and len(el.elts) == len(names)):
-                    return None
-                vals = el.elts
-            if not all(self.pure(v) for v in vals):
+            m = _match_target(tgt, el)
+            if m is None or not all(self.pure(v) for v in m.values()):
                 return None
-            sub = _Subst(dict(zip(names, vals)))
+            sub = _Subst(m)
             for b in s.body:
                 out.append(sub.visit(copy.deepcopy(b)))
         return out
+
+    def merge_aug(self, fn):
+        """x = e0; x *= e1; x *= e2  (consecutive statements of one block, pure operands that do not mention x)  ->
+        x = e0 * e1 * e2"""
+        def walk(body):
+            i = 0
+            while i < len(body):
+                s = body[i]
+                for field in ('body', 'orelse', 'finalbody'):
+                    b = getattr(s, field, None)
+                    if isinstance(b, list) and b and isinstance(b[0], ast.stmt) and not isinstance(s, (ast.FunctionDef, ast.ClassDef)):
+                        walk(b)
+                if isinstance(s, ast.Assign) and len(s.targets) == 1 and isinstance(s.targets[0], ast.Name) and self.pure(s.value) \
+                        and i + 1 < len(body):
+                    nm = s.targets[0].id
+                    nx = body[i + 1]
+                    if isinstance(nx, ast.AugAssign) and isinstance(nx.target, ast.Name) and nx.target.id == nm and \
+                            isinstance(nx.op, (ast.Mult, ast.Add, ast.Sub)) and self.pure(nx.value) and \
+                            not any(isinstance(x, ast.Name) and x.id == nm for x in ast.walk(nx.value)) and \
+                            not any(isinstance(x, ast.Name) and x.id == nm for x in ast.walk(s.value)):
+                        s.value = ast.copy_location(ast.BinOp(left=s.value, op=nx.op, right=nx.value), s.value)
+                        del body[i + 1]
+                        self.log.append(('merge-aug', fn.name, nm))
+                        continue
+                i += 1
+        walk(fn.body)
+
+    def ssa_rename(self, fn):
+        """a scratch local re-defined by plain assignments at the top level of the function body (r = a % m; ..; r = b % m; ..)
+        becomes one name per definition, provided it is used only in straight-line / branching code (no loop, no nested
+        function reads it) - each version is then single-assignment and takes part in copy propagation."""
+        params = set(_params(fn))
+        sites = _assigned_names(fn)
+        for nm, ss in sorted(sites.items()):
+            if nm in params or len(ss) < 2 or _typed_name(nm):
+                continue
+            if not all(isinstance(a, ast.Assign) and len(a.targets) == 1 and isinstance(a.targets[0], ast.Name) and a in fn.body
+                       for a in ss):
+                continue
+            # no use inside loops / nested scopes / comprehensions bound names
+            bad = False
+            for st in fn.body:
+                for x in ast.walk(st):
+                    if isinstance(x, (ast.For, ast.While, ast.FunctionDef, ast.Lambda, ast.ListComp, ast.GeneratorExp, ast.SetComp,
+                                      ast.DictComp, ast.Try, ast.With)) and any(isinstance(y, ast.Name) and y.id == nm for y in ast.walk(x)):
+                        bad = True
+            if bad:
+                continue
+            # a use before the first definition, or a definition that reads the previous version, is fine (handled in order)
+            version = 0
+            cur = None
+            first_def = fn.body.index(ss[0]) if ss[0] in fn.body else None
+            if first_def is None or any(isinstance(y, ast.Name) and y.id == nm for st in fn.body[:first_def] for y in ast.walk(st)):
+                continue
+            self.counter += 1
+            for st in fn.body:
+                if st in ss:
+                    # the value still reads the previous version
+                    if cur is not None:
+                        st.value = _Rename({nm: cur}).visit(st.value)
+                    version += 1
+                    cur = '%s_v%d_%d' % (nm, version, self.counter)
+                    st.targets[0] = ast.copy_location(ast.Name(id=cur, ctx=ast.Store()), st.targets[0])
+                elif cur is not None:
+                    idx = fn.body.index(st)
+                    fn.body[idx] = _Rename({nm: cur}).visit(st)
+            self.log.append(('ssa', fn.name, nm))
 
     # ------------------------------------------------------------------ purity
     def pure(self, e):
